@@ -105,5 +105,5 @@ class SeqCountProvider(ProvidesSeqCount):
 
     def get_and_increment(self) -> int:
         curr_count = self.count
-        self.count += 1
+        self.count = (self.count + 1) % pow(2, self._max_bit_width)
         return curr_count
